@@ -30,10 +30,10 @@ type C16Case struct {
 var c16Ops = []string{"get", "get", "insert", "insert", "inserthigh", "insertlow", "insertlow", "update", "delete", "delete", "deletetop", "deletetop", "delabsent", "clone", "openbad", "cursor", "min", "max", "ceil", "forward", "backward", "seekfirst"}
 
 func genC16(t *rapid.T, tier string) C16Case {
-	c := C16Case{Cfg: core.GenConfig(t, tier, core.GenOpts{Caches: []string{"none"}, Vals: []string{core.VInt, core.VString, core.VBytes, core.VPtr, core.VStruct}})}
+	c := C16Case{Cfg: core.GenConfig(t, tier, core.GenOpts{Caches: []string{"none"}, Vals: []string{core.VInt, core.VString, core.VBytes, core.VPtr, core.VStruct}, BigOneIn: 8})}
 	pool := len(c.Cfg.Pool())
-	c.Fill = core.GenFill(t, pool, pool)
-	c.Prog = core.GenProgram(t, pairBaseWeights, 20, 1)
+	c.Fill = core.GenFillCfg(t, c.Cfg, pool)
+	c.Prog = core.GenProgram(t, core.WithBulk(pairBaseWeights, c.Cfg), 20, 1)
 	n := rapid.IntRange(1, 8).Draw(t, "nprobes")
 	for i := 0; i < n; i++ {
 		c.Probes = append(c.Probes, C16Probe{Op: rapid.SampledFrom(c16Ops).Draw(t, "probeop"), K: rapid.IntRange(0, 63).Draw(t, "probekey")})
